@@ -5,6 +5,7 @@ import (
 	"runtime"
 	"sort"
 	"sync"
+	"sync/atomic"
 
 	"github.com/openacid/low/bitmap"
 	"github.com/openacid/low/bitstr"
@@ -173,6 +174,9 @@ func c19BigInputs(seed int64) (calls []c19BigCall, digest func() uint64, desc st
 			return h
 		}},
 		{"bmtree.Decode(17 levels)", func() uint64 { return gen.HashWords(bmtree.Decode(tall, tbm)) }},
+		// bitmaps shorter than the tree: trailing empty words may be omitted (C04)
+		{"bmtree.Decode(17 levels, bitmap of 700 of 2048 words)", func() uint64 { return gen.HashWords(bmtree.Decode(tall, tbm[:700])) }},
+		{"bmtree.Decode(17 levels, bitmap of 1 word)", func() uint64 { return gen.HashWords(bmtree.Decode(tall, tbm[:1])) }},
 		{"bmtree.AllPaths(17 levels)", func() uint64 { return gen.HashWords(bmtree.AllPaths(tall, 0, ^uint64(0))) }},
 		{"bmtree.PathsOf", func() uint64 {
 			return gen.Hash64(gen.HashWords(bmtree.PathsOf(keys[:100003], 3, 17, true)), gen.HashWords(bmtree.PathsOf(keys[:100003], 0, 9, false)))
@@ -201,6 +205,58 @@ func c19BigEnv(w *mon.W) {
 	}
 	runtime.GOMAXPROCS(prev)
 	var ev int64
+	// Repetition: the same call with the same arguments again and again must keep returning the same result - and must
+	// keep returning at all (a helper slot, pool entry or lock that one call in some branch does not give back is used
+	// up after a number of calls that depends on the machine: round 10 seeded a semaphore sized by GOMAXPROCS that lost
+	// one slot per Decode of a bitmap shorter than its tree). A call that blocks is reported by the runtime (2.3).
+	reps := w.Cfg.Pick(24, 80)
+	for i, c := range calls {
+		for k := 0; k < reps; k++ {
+			w.Op = fmt.Sprintf("phase F repetition %d of %s", k+2, c.name)
+			h := c.run()
+			ev++
+			if h != base[i] {
+				w.Fail("result-depends-on-earlier-calls/"+c.name, mon.D{"function": c.name, "repetition": k + 2, "mode": "the same call with the same arguments repeated sequentially",
+					"first_hash": fmt.Sprintf("%016x", base[i]), "hash": fmt.Sprintf("%016x", h), "arguments": desc})
+				return
+			}
+			w.Tick()
+		}
+	}
+	w.Bucket("big-args/repetition")
+	// Crowd: 4 x GOMAXPROCS goroutines make the SAME call on the same shared arguments at once (C19's quantifier: any
+	// number of goroutines, any schedule). Three callers never exhaust anything; as many callers as there are Ps, each
+	// holding one unit of a bounded resource while waiting for more, do (round 10: ToArray on 8192+ words).
+	crowd := 4 * runtime.GOMAXPROCS(0)
+	for i, c := range calls {
+		w.Op = fmt.Sprintf("phase F crowd: %d goroutines at once in %s", crowd, c.name)
+		got := make([]uint64, crowd)
+		var ready int32
+		start := make(chan struct{})
+		var wg sync.WaitGroup
+		for g := 0; g < crowd; g++ {
+			wg.Add(1)
+			go func(g int) {
+				defer wg.Done()
+				if atomic.AddInt32(&ready, 1) == int32(crowd) {
+					close(start)
+				}
+				<-start
+				got[g] = c.run()
+			}(g)
+		}
+		wg.Wait()
+		ev += int64(crowd)
+		for g := 0; g < crowd; g++ {
+			if got[g] != base[i] {
+				w.Fail("result-depends-on-environment/"+c.name, mon.D{"function": c.name, "mode": fmt.Sprintf("%d goroutines make the same call at once", crowd), "baseline": "GOMAXPROCS=1, nothing else running",
+					"baseline_hash": fmt.Sprintf("%016x", base[i]), "hash": fmt.Sprintf("%016x", got[g]), "arguments": desc})
+				return
+			}
+		}
+		w.Tick()
+	}
+	w.Bucket("big-args/crowd")
 	for _, s := range mon.EnvSettings(w.Cfg.Tier) {
 		restore := s.Apply()
 		// sequential
